@@ -90,7 +90,17 @@ def _sign(x):
     return Fraction((x > 0) - (x < 0))
 
 
+def _tdiv(x, y):
+    _num(x), _num(y)
+    if y == 0:
+        raise Undefined("div by zero")
+    q = x / y
+    n = abs(q.numerator) // q.denominator
+    return Fraction(n if q >= 0 else -n)
+
+
 CALLS = {
+    ("div", 2): _tdiv,
     ("abs", 1): lambda x: abs(_num(x)),
     ("sign", 1): _sign,
     ("min", 2): lambda x, y: min(_num(x), _num(y)),
